@@ -161,6 +161,109 @@ fn main() {
             }
             out.flush().unwrap();
         }
+        "outlive-check" => {
+            // C06, last clause: objects that outlive every pool handle can still be used and
+            // dropped safely; what the pool still held goes away with it.
+            use std::sync::{atomic::{AtomicUsize, Ordering}, Arc, Mutex};
+            struct Obj {
+                id: usize,
+                val: u64,
+                destroyed: Arc<Mutex<Vec<usize>>>,
+            }
+            impl Drop for Obj {
+                fn drop(&mut self) {
+                    self.destroyed.lock().unwrap().push(self.id);
+                }
+            }
+            struct Mgr {
+                next: AtomicUsize,
+                destroyed: Arc<Mutex<Vec<usize>>>,
+            }
+            impl deadpool::managed::Manager for Mgr {
+                type Type = Obj;
+                type Error = ();
+                async fn create(&self) -> Result<Obj, ()> {
+                    Ok(Obj { id: self.next.fetch_add(1, Ordering::SeqCst), val: 0, destroyed: self.destroyed.clone() })
+                }
+                async fn recycle(&self, _: &mut Obj, _: &deadpool::managed::Metrics) -> deadpool::managed::RecycleResult<()> {
+                    Ok(())
+                }
+            }
+            for variant in ["drop", "close-then-drop", "drop-clone-last"] {
+                let destroyed: Arc<Mutex<Vec<usize>>> = Arc::default();
+                let d2 = destroyed.clone();
+                let res = std::panic::catch_unwind(move || -> Vec<String> {
+                    let rt = tokio::runtime::Builder::new_current_thread().enable_all().build().unwrap();
+                    let mut problems: Vec<String> = Vec::new();
+                    rt.block_on(async {
+                        let pool = deadpool::managed::Pool::<Mgr>::builder(Mgr { next: AtomicUsize::new(0), destroyed: d2.clone() })
+                            .max_size(3)
+                            .build()
+                            .unwrap();
+                        let clone = pool.clone();
+                        let mut a = pool.get().await.unwrap();
+                        let b = pool.get().await.unwrap();
+                        let c = pool.get().await.unwrap();
+                        let (ida, idb, idc) = (a.id, b.id, c.id);
+                        drop(c); // idle in the pool
+                        if deadpool::managed::Object::pool(&a).is_none() {
+                            problems.push("Object::pool() is None while the pool is alive".into());
+                        }
+                        if variant == "close-then-drop" {
+                            pool.close();
+                        }
+                        if variant == "drop-clone-last" {
+                            drop(pool);
+                            if !d2.lock().unwrap().is_empty() {
+                                problems.push("an object was destroyed while a pool handle was still alive".into());
+                            }
+                            drop(clone);
+                        } else {
+                            drop(clone);
+                            drop(pool);
+                        }
+                        // the idle object went away with the pool (or with close())
+                        if d2.lock().unwrap().as_slice() != [idc] {
+                            problems.push(format!("after the last pool handle was dropped the destroyed objects are {:?}, expected [{}]", d2.lock().unwrap(), idc));
+                        }
+                        // the survivors are usable
+                        a.val += 41;
+                        a.val += 1;
+                        if a.val != 42 {
+                            problems.push("object not usable".into());
+                        }
+                        let _ = deadpool::managed::Object::metrics(&a).recycle_count;
+                        if deadpool::managed::Object::pool(&a).is_some() {
+                            problems.push("Object::pool() is Some after every pool handle was dropped".into());
+                        }
+                        let mut raw = deadpool::managed::Object::take(b);
+                        raw.val += 7;
+                        if d2.lock().unwrap().contains(&idb) {
+                            problems.push("a taken object was destroyed".into());
+                        }
+                        drop(a);
+                        if d2.lock().unwrap().iter().filter(|x| **x == ida).count() != 1 {
+                            problems.push(format!("object {ida} dropped after the pool: destroyed {:?}", d2.lock().unwrap()));
+                        }
+                        drop(raw);
+                        let mut all = d2.lock().unwrap().clone();
+                        all.sort();
+                        let mut dedup = all.clone();
+                        dedup.dedup();
+                        if dedup.len() != all.len() || all.len() != 3 {
+                            problems.push(format!("every object must be destroyed exactly once, got {:?}", all));
+                        }
+                    });
+                    problems
+                });
+                match res {
+                    Ok(p) if p.is_empty() => writeln!(out, "outlive variant={variant} ok=1").unwrap(),
+                    Ok(p) => writeln!(out, "outlive variant={variant} ok=0 problems={}", p.join(" | ")).unwrap(),
+                    Err(_) => writeln!(out, "outlive variant={variant} ok=0 problems=panicked").unwrap(),
+                }
+            }
+            out.flush().unwrap();
+        }
         "replay" => {
             let path = arg(&args, "--in").expect("--in FILE");
             let f = std::io::BufReader::new(std::fs::File::open(path).expect("open in"));
